@@ -4,7 +4,7 @@
    order.  Theorems only; each is closed by [exact] of a lemma proved in
    Arr/Search.v or Arr/Refine.v. *)
 From Coq Require Import List NArith ZArith Bool Arith.
-From Stevia Require Import Base.Res Arr.Impl Arr.Spec Arr.Search Arr.Refine Arr.SpecLaws.
+From Stevia Require Import Base.Res Arr.Impl Arr.Spec Arr.Search Arr.Refine Arr.SpecLaws Arr.Clauses.
 Import ListNotations.
 Open Scope N_scope.
 
@@ -104,6 +104,51 @@ Theorem C03_reachable_members_are_a_set : forall pbytes pre post nslots s,
 Proof. exact areach_set_laws. Qed.
 Print Assumptions C03_reachable_members_are_a_set.
 
+(* ---- user-level clauses on the concrete model: what a lookup answers AFTER a mutating operation ---- *)
+(* a successful insert: the value is found under its key; every other key answers exactly as before *)
+Theorem C03_insert_then_get : forall pbytes s c s' n, ainv pbytes s ->
+  astep_c pbytes s (AInsert c) = Ok (s', ABool true, n) ->
+  ainv pbytes s' /\ as_find (aabs s) (fst c) = None /\ aabs s' = as_insert (aabs s) c /\
+  forall v, exists k, aget_val s' v =
+    Ok (if (fst v =? fst c)%Z then Some c else as_find (aabs s) (fst v), k).
+Proof. exact insert_then_get. Qed.
+Print Assumptions C03_insert_then_get.
+
+(* a refused insert (equivalent element present, or no room): the members are what they were *)
+Theorem C03_insert_refused_keeps_members : forall pbytes s c s' n, ainv pbytes s ->
+  astep_c pbytes s (AInsert c) = Ok (s', ABool false, n) -> ainv pbytes s' /\ aabs s' = aabs s.
+Proof. exact insert_refused_then_get. Qed.
+Print Assumptions C03_insert_refused_keeps_members.
+
+(* remove: the answer says whether the key was there; afterwards it is not, and every other key answers as before *)
+Theorem C03_remove_then_get : forall pbytes s c s' b n, ainv pbytes s ->
+  astep_c pbytes s (ARemove c) = Ok (s', ABool b, n) ->
+  ainv pbytes s' /\ b = (match as_find (aabs s) (fst c) with Some _ => true | None => false end) /\
+  aabs s' = as_remove (aabs s) (fst c) /\
+  forall v, exists k, aget_val s' v =
+    Ok (if (fst v =? fst c)%Z then None else as_find (aabs s) (fst v), k).
+Proof. exact remove_then_get. Qed.
+Print Assumptions C03_remove_then_get.
+
+(* take: returns the STORED element (not the probe), otherwise as remove *)
+Theorem C03_take_then_get : forall pbytes s c s' r n, ainv pbytes s ->
+  astep_c pbytes s (ATake c) = Ok (s', ACell r, n) ->
+  ainv pbytes s' /\ r = as_find (aabs s) (fst c) /\ aabs s' = as_remove (aabs s) (fst c) /\
+  forall v, exists k, aget_val s' v =
+    Ok (if (fst v =? fst c)%Z then None else as_find (aabs s) (fst v), k).
+Proof. exact take_then_get. Qed.
+Print Assumptions C03_take_then_get.
+
+(* get_mut with a write that keeps the order key: that member is replaced, no other *)
+Theorem C03_get_mut_then_get : forall pbytes s c new s' r n, ainv pbytes s -> fst new = fst c ->
+  astep_c pbytes s (AGetMut c new) = Ok (s', ACell r, n) ->
+  ainv pbytes s' /\ r = as_find (aabs s) (fst c) /\
+  forall v, exists k, aget_val s' v =
+    Ok (if (fst v =? fst c)%Z then (match r with Some _ => Some new | None => None end)
+        else as_find (aabs s) (fst v), k).
+Proof. exact get_mut_then_get. Qed.
+Print Assumptions C03_get_mut_then_get.
+
 (* non-vacuity: one-byte prefix, four slots, canary cells around the buffer *)
 Example C03_example :
   let ops := [AInsert (5, 50); AInsert (3, 30); AInsert (9, 90); AInsert (3, 31); ATake (5, 0); ADeref; ALen]%Z in
@@ -124,3 +169,12 @@ Example C03_set_laws_example :
   as_insert m (5, 51)%Z = m /\ as_remove m 5%Z = [(3, 30); (9, 90)]%Z /\
   as_update m 9%Z (9, 91)%Z = [(3, 30); (5, 50); (9, 91)]%Z /\ as_find m 4%Z = None.
 Proof. exact set_laws_example. Qed.
+
+Example C03_clauses_example :
+  let s0 := ainit_c [(7, 7)%Z] [(8, 8)%Z] 4 in
+  exists s1 s2, astep_c 1 s0 (AInsert (5, 50)%Z) = Ok (s1, ABool true, 0%N) /\
+    astep_c 1 s1 (AInsert (3, 30)%Z) = Ok (s2, ABool true, 0%N) /\
+    (exists k, aget_val s2 (5, 0)%Z = Ok (Some (5, 50)%Z, k)) /\
+    exists s3, astep_c 1 s2 (ARemove (5, 0)%Z) = Ok (s3, ABool true, 0%N) /\
+      (exists k, aget_val s3 (5, 0)%Z = Ok (None, k)) /\ (exists k, aget_val s3 (3, 0)%Z = Ok (Some (3, 30)%Z, k)).
+Proof. exact clauses_example. Qed.
